@@ -75,7 +75,7 @@ def items(tier):
     for fl in flows:
         for lay in ("POOL2", "DED"):
             sp = F.with_teams(fl, lay)
-            for rule in (("TSLACK", "FIFO") if tier == "quick" else ("TSLACK", "SPT", "FIFO", "LRPT")):
+            for rule in (("TSLACK", "FIFO", "LWRPT") if tier == "quick" else ("TSLACK", "SPT", "FIFO", "LRPT", "LWRPT", "SWRPT")):
                 out.append((sp, {"rule": rule, "max_time": F.seq_bound(sp) + 8}))
             out.append((sp, {"rule": "TSLACK", "absence": [1], "res_absence": {"W0": [0, 2]}, "max_time": F.seq_bound(sp) + 10}))
             if any(k in ("FF", "SF") for _, _, k in fl["links"]):
